@@ -912,6 +912,7 @@ func (r *FnRun) builtinAppend(st *State, site ssa.Instruction, args []Val, resT 
 		c := r.fresh("appcap", "Int")
 		st.assume(sx(">=", c, newLen))
 		st.assume(sEq(sx("alen", p), c))
+		st.assume(sEq(sx("elty", p), fmt.Sprint(r.W.eltyFor(et))))
 		return Val{K: KSlice, T: resT, Bas: p, Off: "0", Len: newLen, Cap: c}
 	}
 	oldSeq := r.seqOfSlice(st, s)
@@ -929,6 +930,7 @@ func (r *FnRun) builtinAppend(st *State, site ssa.Instruction, args []Val, resT 
 	st.assume(sEq(no, sIte(inPlace, s.Off, "0")))
 	st.assume(sIte(inPlace, sEq(nc, s.Cap), sx(">=", nc, newLen)))
 	st.assume(sEq(sx("alen", p), sIte(inPlace, "0", nc)))
+	st.assume(sEq(sx("elty", p), fmt.Sprint(r.W.eltyFor(et))))
 	a := st.heap["A"]
 	// contents: in place => splice the added bytes after the old ones (same
 	// array); fresh => new array whose first newLen bytes are old ++ added
